@@ -679,10 +679,10 @@ def run_case(case, strace=True, timeout=60, binary=None):
     return o
 
 
-def run_many(cases, strace=True, timeout=60):
+def run_many(cases, strace=True, timeout=60, workers=None):
     if not cases:
         return []
-    with concurrent.futures.ThreadPoolExecutor(max_workers=NWORKERS) as ex:
+    with concurrent.futures.ThreadPoolExecutor(max_workers=workers or NWORKERS) as ex:
         return list(ex.map(lambda c: run_case(c, strace=strace, timeout=timeout), cases))
 
 
